@@ -26,6 +26,9 @@ SortLaw(r, ob) ==
          (v.t = "list" /\ Comparable(v.s))
            => (ob.out.o = "ok" /\ ob.out.v.t = "list" /\ IsSorted(ob.out.v.s) /\ IsPerm(v.s, ob.out.v.s))
 
+(* cases marked "same": every form must give one and the same outcome (C07: one fixed map order) *)
+SameLaw(r) == ("extra" \in DOMAIN r /\ "same" \in DOMAIN r.extra) => \A i, j \in 1..Len(r.obs) : r.obs[i].out = r.obs[j].out
+
 ObsOk(ob, e) == /\ Matches(ob.out, e.o)
                 /\ (e.lk /\ "log" \in DOMAIN ob => ob.log = e.log)
                 /\ ("bind_ok" \in DOMAIN ob => ob.bind_ok)
@@ -34,7 +37,7 @@ Init == l = 1 /\ nbad = 0 /\ nsingle = 0 /\ nany = 0
 Step == /\ l <= Len(Rec)
         /\ LET r == Rec[l]
                e == Expect(r)
-               badObs == {i \in 1..Len(r.obs) : ~ObsOk(r.obs[i], e) \/ ~SortLaw(r, r.obs[i])}
+               badObs == {i \in 1..Len(r.obs) : ~ObsOk(r.obs[i], e) \/ ~SortLaw(r, r.obs[i]) \/ (i = 1 /\ ~SameLaw(r))}
            IN /\ nbad' = nbad + Cardinality(badObs)
               /\ nsingle' = nsingle + (IF e.o.o \in {"ok", "err"} /\ (e.o.o = "err" => e.o.c # "either") THEN 1 ELSE 0)
               /\ nany' = nany + (IF e.o.o = "any" THEN 1 ELSE 0)
